@@ -7,6 +7,7 @@ import (
 
 	"verif/vs/c03"
 	"verif/vs/c04"
+	"verif/vs/c05"
 	"verif/vs/c06"
 	"verif/vs/c07"
 	"verif/vs/c10"
@@ -20,6 +21,7 @@ import (
 var checks = map[string]*run.Check{
 	"C03": c03.Check,
 	"C04": c04.Check,
+	"C05": c05.Check,
 	"C06": c06.Check,
 	"C07": c07.Check,
 	"C10": c10.Check,
